@@ -41,7 +41,9 @@ def lg_cases(draw, tier="quick"):
          # overall scale of noise and prior standard deviations (1e-5: covariances ~1e-10)
          "scale_pow": draw(st.sampled_from([0, 0, 0, -5])),
          # the prior object is first built with other values, its covariance materialised, then it is given its values
-         "reassign_after_cov": draw(st.sampled_from([False, False, True]))}
+         "reassign_after_cov": draw(st.sampled_from([False, False, True])),
+         # a vague prior: prior standard deviations times 1e4 (variances times 1e8) while the noise keeps its level
+         "vague_pow": draw(st.sampled_from([0, 0, 0, 4]))}
     if c["backing"] == "roll":
         # function-backed square model written with numpy functions that act along the last axis of whatever they are given
         c["m"] = m = n
@@ -74,6 +76,7 @@ def nl_cases(draw, tier="quick"):
     c["nonlinear"] = True
     c["fd_zero_start"] = draw(st.sampled_from([False, False, True]))
     c["scale_pow"] = 0
+    c["vague_pow"] = 0
     if c["backing"] in ("view", "roll"):
         c["backing"] = "function"
     c["cc"] = draw(st.sampled_from([0.2, 0.5]))
@@ -150,6 +153,10 @@ def build(c):
         (k1, v1), = nkw.items()
         (k2, v2), = pkw.items()
         nkw, pkw, Se, Sx = {k1: v1 * fac[k1]}, {k2: v2 * fac[k2]}, Se * sc ** 2, Sx * sc ** 2
+    vg = 10.0 ** c.get("vague_pow", 0)
+    if vg != 1.0:
+        (k2, v2), = pkw.items()
+        pkw, Sx = {k2: v2 * {"cov": vg ** 2, "prec": vg ** -2, "sqrtcov": vg, "sqrtprec": 1 / vg}[k2]}, Sx * vg ** 2
     mu = (A(c["pmean"]) if c["pmean_kind"] == "vector" else np.zeros(npar)) * sc
     if c.get("reassign_after_cov"):
         (k2, v2), = pkw.items()
@@ -180,7 +187,7 @@ def effective_matrix(model):
 def tags_of(c):
     return {"dom": c["dom"]["kind"], "backing": "nonlinear" if c["nonlinear"] else c["backing"], "noise": c["noise_form"], "prior": c["prior_form"],
             "pmean": c["pmean_kind"], "compute_cov": bool(c.get("compute_cov")), "map_x0": c.get("map_x0", "none"),
-            "scale_pow": c.get("scale_pow", 0), "reassign_after_cov": bool(c.get("reassign_after_cov"))}
+            "scale_pow": c.get("scale_pow", 0), "reassign_after_cov": bool(c.get("reassign_after_cov")), "vague_pow": c.get("vague_pow", 0)}
 
 
 def nontrivial(c):
@@ -188,7 +195,7 @@ def nontrivial(c):
         c["dom"]["kind"] in ("kl", "step") or c["nonlinear"]
 
 
-def check_maximiser(density, xhat, probe, scale, what, tol_rel):
+def check_maximiser(density, xhat, probe, scale, what, tol_rel, slack=1.0):
     """no nearby point has a larger value; gradient vanishes where defined"""
     f0 = float(np.asarray(density.logd(xhat)).reshape(-1)[0])
     for r in (1e-3, 1e-2, 1e-1):
@@ -202,7 +209,7 @@ def check_maximiser(density, xhat, probe, scale, what, tol_rel):
         g = np.asarray(g, dtype=float)
         # gradient in units of the posterior standard deviations: (g_i * sd_i)^2 / 2 bounds the attainable gain in log-density
         gs = float(np.max(np.abs(g * scale)))
-        require(gs <= (1e-6 if tol_rel <= 1e-9 else 2e-2), f"{what}: the gradient does not vanish at the returned estimate", gradient=g, scaled=gs)
+        require(gs <= (1e-6 * slack if tol_rel <= 1e-9 else 2e-2), f"{what}: the gradient does not vanish at the returned estimate", gradient=g, scaled=gs)
 
 
 def run_linear(c, rec):
@@ -237,13 +244,15 @@ def run_linear(c, rec):
         if mapkw:
             rec.count(f"MAP_with_x0:{route}")
         rec.count(f"MAP_route:{route}")
-        tol = 1e-6 if route == "direct" else 2e-3
+        # (a vague prior makes the closed form ill conditioned: condition number ~ prior variance / noise variance = 1e8 costs 8 digits)
+        slack = 10.0 ** max(0, 2 * c.get("vague_pow", 0) - 6)
+        tol = 1e-6 * slack if route == "direct" else 2e-3
         xm_arr = np.asarray(xm, dtype=float)
         require(xm_arr.shape == xstar.shape and np.max(np.abs(xm_arr - xstar) / sd) <= tol * max(1.0, np.max(np.abs(xstar) / sd)),
                 f"MAP estimate differs from the closed-form posterior mean (route {route}, noise {c['noise_form']}, prior {c['prior_form']}, "
                 f"geometry {c['dom']['kind']}, {c['backing']}-backed)", got=xm_arr, want=xstar)
         require(isinstance(xm, cuqi.array.CUQIarray) and xm.geometry == BP.posterior.geometry, "MAP estimate does not carry the posterior geometry")
-        check_maximiser(BP.posterior, xm_arr, probe, sd, "MAP", 1e-9 if route == "direct" else 1e-5)
+        check_maximiser(BP.posterior, xm_arr, probe, sd, "MAP", 1e-9 if route == "direct" else 1e-5, slack=slack)
     # ---------------- ML (well posed when A has full column rank)
     # (ML goes through a general-purpose optimiser with absolute tolerances: only judged at unit scale)
     if c.get("scale_pow", 0) == 0 and Aeff.shape[0] >= Aeff.shape[1] and np.linalg.cond(Aeff) < 1e3 and np.min(np.linalg.svd(Aeff, compute_uv=False)) > 1e-6:
@@ -277,7 +286,10 @@ def run_linear(c, rec):
         refused, S = refuses(lambda: BP.sample_posterior(n + 2, callback=lambda s, i: log.append((i, np.array(s, dtype=float)))))
         consumed = len(E.reshape(-1)) - len(rng.q["normal"])
     if refused:
-        require(isinstance(S, NotImplementedError), f"BayesianProblem.sample_posterior raised {type(S).__name__}: {S}")
+        # (with a vague prior the covariance assembled in closed form may lose positive definiteness to round-off: the library
+        # then refuses with LinAlgError - a refusal, not a wrong draw)
+        require(isinstance(S, NotImplementedError) or (c.get("vague_pow", 0) > 0 and isinstance(S, np.linalg.LinAlgError)),
+                f"BayesianProblem.sample_posterior raised {type(S).__name__}: {S}")
         rec.count("sample_refused:" + type(S).__name__)
         return
     direct = consumed == E.size and len(rng.calls) == n + 2 and all(cn[0] == "randn" for cn in rng.calls)
